@@ -19,18 +19,21 @@ structure Mono (s s' : BSt) : Prop where
   unread : ∀ j, (s.th j).accepted.length + (s'.th j).qStmts.length ≤ (s'.th j).accepted.length + (s.th j).qStmts.length
   /-- a stopped backend stays stopped -/
   gone : s.backendGone = true → s'.backendGone = true
+  /-- a raised flag stays raised -/
+  flags : ∀ f ∈ s.flags, f ∈ s'.flags
 
 theorem Mono.ofAcc {s s' : BSt} (h1 : s.now ≤ s'.now) (h2 : ∀ j, (s'.th j).accepted = (s.th j).accepted)
     (h3 : s.ths.length ≤ s'.ths.length) (h4 : ∀ j, (s'.th j).qStmts.length ≤ (s.th j).qStmts.length)
-    (h5 : s.backendGone = true → s'.backendGone = true) : Mono s s' :=
-  ⟨h1, fun j => ⟨[], by rw [h2]; simp, fun _ h => by cases h⟩, h3, fun j => by rw [h2]; have := h4 j; omega, h5⟩
+    (h5 : s.backendGone = true → s'.backendGone = true) (h6 : ∀ f ∈ s.flags, f ∈ s'.flags) : Mono s s' :=
+  ⟨h1, fun j => ⟨[], by rw [h2]; simp, fun _ h => by cases h⟩, h3, fun j => by rw [h2]; have := h4 j; omega, h5, h6⟩
 
 theorem Mono.refl (s : BSt) : Mono s s :=
-  Mono.ofAcc (Nat.le_refl _) (fun _ => rfl) (Nat.le_refl _) (fun _ => Nat.le_refl _) id
+  Mono.ofAcc (Nat.le_refl _) (fun _ => rfl) (Nat.le_refl _) (fun _ => Nat.le_refl _) id (fun _ h => h)
 
 theorem Mono.trans {a b c : BSt} (h1 : Mono a b) (h2 : Mono b c) : Mono a c := by
   refine ⟨Nat.le_trans h1.now h2.now, fun j => ?_, Nat.le_trans h1.len h2.len,
-    fun j => by have := h1.unread j; have := h2.unread j; omega, fun h => h2.gone (h1.gone h)⟩
+    fun j => by have := h1.unread j; have := h2.unread j; omega, fun h => h2.gone (h1.gone h),
+    fun f hf => h2.flags f (h1.flags f hf)⟩
   obtain ⟨l1, e1, n1⟩ := h1.acc j
   obtain ⟨l2, e2, n2⟩ := h2.acc j
   refine ⟨l1 ++ l2, by rw [e2, e1, List.append_assoc], fun r hr => ?_⟩
@@ -38,12 +41,14 @@ theorem Mono.trans {a b c : BSt} (h1 : Mono a b) (h2 : Mono b c) : Mono a c := b
   · exact n1 r h
   · exact Nat.le_trans h1.now (n2 r h)
 
-theorem Mono.ofThs {s s' : BSt} (h1 : s'.ths = s.ths) (h2 : s.now ≤ s'.now) (h3 : s'.backendGone = s.backendGone) : Mono s s' :=
+theorem Mono.ofThs {s s' : BSt} (h1 : s'.ths = s.ths) (h2 : s.now ≤ s'.now) (h3 : s'.backendGone = s.backendGone)
+    (h4 : ∀ f ∈ s.flags, f ∈ s'.flags := by exact fun _ h => h) : Mono s s' :=
   Mono.ofAcc h2 (fun j => by simp only [BSt.th, h1]) (by rw [h1]; exact Nat.le_refl _)
-    (fun j => by simp only [BSt.th, h1]; exact Nat.le_refl _) (fun h => by rw [h3]; exact h)
+    (fun j => by simp only [BSt.th, h1]; exact Nat.le_refl _) (fun h => by rw [h3]; exact h) h4
 
-theorem Mono.ofEq {s s' : BSt} (h1 : s'.ths = s.ths) (h2 : s'.now = s.now) (h3 : s'.backendGone = s.backendGone) : Mono s s' :=
-  Mono.ofThs h1 (Nat.le_of_eq h2.symm) h3
+theorem Mono.ofEq {s s' : BSt} (h1 : s'.ths = s.ths) (h2 : s'.now = s.now) (h3 : s'.backendGone = s.backendGone)
+    (h4 : ∀ f ∈ s.flags, f ∈ s'.flags := by exact fun _ h => h) : Mono s s' :=
+  Mono.ofThs h1 (Nat.le_of_eq h2.symm) h3 h4
 
 theorem Fr.mono {s s' : BSt} (h : Fr s s') : Mono s s' :=
   Mono.ofAcc (Nat.le_of_eq h.now.symm) (fun j => (h.th j).acc) (Nat.le_of_eq h.len.symm)
@@ -54,12 +59,12 @@ theorem Fr.mono {s s' : BSt} (h : Fr s s') : Mono s s' :=
       rw [e] at hc
       simp only [List.length_append] at hc
       omega)
-    (fun hg => by rw [h.gone]; exact hg)
+    (fun hg => by rw [h.gone]; exact hg) (fun f hf => by rw [h.flags]; exact hf)
 
 /-- a step that leaves the contexts' records alone (`Same2`) and is otherwise a `Sub` step -/
 theorem Mono.ofSubSame {s s' : BSt} (h : Sub s s') (h2 : Same2 s s') : Mono s s' :=
   Mono.ofAcc h.now (fun j => (h.th j).acc) (Nat.le_of_eq h.len.symm)
-    (fun j => by rw [(h2.th j).q]; exact Nat.le_refl _) (fun hg => by rw [h.gone]; exact hg)
+    (fun j => by rw [(h2.th j).q]; exact Nat.le_refl _) (fun hg => by rw [h.gone]; exact hg) h.flags
 
 theorem mono_cleanupContexts (s : BSt) : Mono s (Backend.cleanupContexts s) :=
   Mono.ofSubSame (sub_cleanupContexts s) (same2_cleanupContexts s)
@@ -70,7 +75,7 @@ theorem SLOL.mono {s s' : BSt} (h : SLOL s s') : Mono s s' := by
 
 theorem Mono.setTh (s : BSt) (i : Nat) (f : Th → Th) (hf : ∀ t, (f t).accepted = t.accepted)
     (hq : ∀ t, (f t).qStmts.length ≤ t.qStmts.length) : Mono s (s.setTh i f) := by
-  refine Mono.ofAcc (Nat.le_refl _) (fun j => ?_) (Nat.le_of_eq (length_setTh s i f).symm) (fun j => ?_) id
+  refine Mono.ofAcc (Nat.le_refl _) (fun j => ?_) (Nat.le_of_eq (length_setTh s i f).symm) (fun j => ?_) id (fun _ h => h)
   · rcases th_setTh_cases s i j f with h1 | ⟨rfl, _, h1⟩
     · rw [h1]
     · rw [h1, hf]
@@ -101,7 +106,7 @@ theorem mono_ensureCtx (s : BSt) (a : Nat) : Mono s (Backend.ensureCtx s a).1 :=
     have hth : ∀ j, ((({ s with ths := s.ths ++ [mkTh s.cfg a], registry := s.registry ++ [s.ths.length], newFlag := true } : BSt).setActor a
         (fun x => { x with ctx := some s.ths.length })).th j) = if j = s.ths.length then mkTh s.cfg a else s.th j :=
       fun j => th_append s _ j
-    refine Mono.ofAcc (Nat.le_refl _) (fun j => ?_) ?_ (fun j => ?_) id
+    refine Mono.ofAcc (Nat.le_refl _) (fun j => ?_) ?_ (fun j => ?_) id (fun _ h => h)
     · rw [hth]; split
       · rename_i hj; rw [hj, th_lt_or_default s _ (Nat.le_refl _)]; rfl
       · rfl
@@ -114,7 +119,7 @@ theorem mono_ensureCtx (s : BSt) (a : Nat) : Mono s (Backend.ensureCtx s a).1 :=
 theorem Mono.setTh_app (s : BSt) (i : Nat) (f : Th → Th) (x : Stmt) (hx : s.now ≤ x.enqAt)
     (hf : (f (s.th i)).accepted = (s.th i).accepted ++ [x])
     (hq : (f (s.th i)).qStmts.length = (s.th i).qStmts.length + 1) : Mono s (s.setTh i f) := by
-  refine ⟨Nat.le_refl _, fun j => ?_, Nat.le_of_eq (length_setTh s i f).symm, fun j => ?_, id⟩
+  refine ⟨Nat.le_refl _, fun j => ?_, Nat.le_of_eq (length_setTh s i f).symm, fun j => ?_, id, fun _ h => h⟩
   · rcases th_setTh_cases s i j f with h1 | ⟨rfl, _, h1⟩
     · exact ⟨[], by rw [h1]; simp, fun _ h => by cases h⟩
     · refine ⟨[x], by rw [h1, hf], fun r hr => ?_⟩
@@ -198,6 +203,14 @@ theorem mono_withLogger (s : BSt) (a g : Nat) (k : Nat → BSt × String) (hk : 
   · exact Mono.refl _
 
 theorem reapSinks_gone (s : BSt) (l : List Nat) : (reapSinks s l).backendGone = s.backendGone := by
+  unfold reapSinks
+  induction l generalizing s with
+  | nil => rfl
+  | cons x xs ih =>
+    rw [List.foldl_cons, ih]
+    split <;> rfl
+
+theorem reapSinks_flags (s : BSt) (l : List Nat) : (reapSinks s l).flags = s.flags := by
   unfold reapSinks
   induction l generalizing s with
   | nil => rfl
@@ -293,7 +306,7 @@ theorem mono_applyFront (s : BSt) (f : FOp) : Mono s (Backend.applyFront s f).1 
   | dropSink sid =>
     simp only [Backend.applyFront]
     obtain ⟨a, _, c, _⟩ := reapSinks_core (s.setSink sid (fun k => { k with userRef := false })) [sid]
-    exact Mono.ofEq (by rw [a]; rfl) (by rw [c]; rfl) (reapSinks_gone _ _)
+    exact Mono.ofEq (by rw [a]; rfl) (by rw [c]; rfl) (reapSinks_gone _ _) (fun f hf => by rw [reapSinks_flags]; exact hf)
   | query => exact Mono.refl _
 
 theorem mono_foldFront (ops : List FOp) (skip : FOp → Bool) (e : BSt → FOp → Ev)
@@ -408,7 +421,7 @@ theorem mono_cleanupLoggers (hg : InjMono inj) (s : BSt) : Mono s (Backend.clean
         · exact (fr_allEmpty _).mono.trans (Mono.ofEq rfl rfl rfl)
     · intro b a
       split
-      · exact Mono.ofEq rfl rfl rfl
+      · exact Mono.ofEq rfl rfl rfl (fun _ h => List.mem_cons_of_mem _ h)
       · exact Mono.refl _
 
 theorem mono_processLowest (hg : InjMono inj) (s : BSt) : Mono s (Backend.processLowest inj s).1 := by
@@ -444,7 +457,8 @@ theorem mono_processLowest (hg : InjMono inj) (s : BSt) : Mono s (Backend.proces
           · exact mono_checkFailures hg _
           · exact Mono.refl _
         exact ((f2.trans p1).trans hpre).trans
-          (Mono.ofEq (s := plPre inj (plPop s2 j st rest)) (s' := plFlag inj (plPop s2 j st rest) f) rfl rfl rfl)
+          (Mono.ofEq (s := plPre inj (plPop s2 j st rest)) (s' := plFlag inj (plPop s2 j st rest) f) rfl rfl rfl
+            (fun _ h => List.mem_cons_of_mem _ h))
       · exact f2.trans p1
 
 theorem mono_batchLoop (hg : InjMono inj) (fuel : Nat) : ∀ s, Mono s (Backend.batchLoop inj fuel s) := by
@@ -462,6 +476,22 @@ theorem mono_batchLoop (hg : InjMono inj) (fuel : Nat) : ∀ s, Mono s (Backend.
       · exact f1.trans p
       · exact (f1.trans p).trans ((hg _ 4).trans (ih _))
 
+theorem mono_preEraseFlush (s : BSt) : Mono s (Backend.preEraseFlush s) := by
+  unfold Backend.preEraseFlush
+  split
+  · exact (slol_flushSinks _).mono
+  · exact Mono.refl _
+
+theorem mono_flushGate (hg : InjMono inj) (s : BSt) (n : Nat) : Mono s (Backend.flushGate inj s n) := by
+  unfold Backend.flushGate
+  split
+  · exact (slol_flushSinks _).mono
+  · simp only []
+    split
+    · exact (hg s 7).trans ((Mono.ofThs rfl (Nat.le_refl _) rfl :
+        Mono (inj s 7) { inj s 7 with lastFlush := (inj s 7).now }).trans (slol_flushSinks _).mono)
+    · exact hg s 7
+
 /-- what a poll does after its pass -/
 theorem mono_poll_tail (hg : InjMono inj) (s : BSt) : Mono (populate inj s).1 (Backend.poll inj s) := by
   unfold Backend.poll
@@ -471,10 +501,11 @@ theorem mono_poll_tail (hg : InjMono inj) (s : BSt) : Mono (populate inj s).1 (B
   · split
     · exact mono_processLowest hg s1
     · exact mono_batchLoop hg _ s1
-  · have a1 : Mono s1 (Backend.allEmpty (Backend.checkFailures inj (flushSinks (inj s1 5)))).1 :=
-      (((hg s1 5).trans (slol_flushSinks _).mono).trans (mono_checkFailures hg _)).trans (fr_allEmpty _).mono
+  · have a1 : Mono s1 (Backend.allEmpty (Backend.checkFailures inj
+        (Backend.flushGate inj (inj s1 5) (inj s1 5).cfg.flushInterval))).1 :=
+      (((hg s1 5).trans (mono_flushGate hg _ _)).trans (mono_checkFailures hg _)).trans (fr_allEmpty _).mono
     split
-    · exact (a1.trans (mono_cleanupContexts _)).trans (mono_cleanupLoggers hg _)
+    · exact (a1.trans (mono_cleanupContexts _)).trans ((mono_preEraseFlush _).trans (mono_cleanupLoggers hg _))
     · exact a1
 
 theorem mono_poll (hg : InjMono inj) (s : BSt) : Mono s (Backend.poll inj s) := by
@@ -487,10 +518,11 @@ theorem mono_poll (hg : InjMono inj) (s : BSt) : Mono s (Backend.poll inj s) := 
   · split
     · exact g1.trans (mono_processLowest hg s1)
     · exact g1.trans (mono_batchLoop hg _ s1)
-  · have a1 : Mono s1 (Backend.allEmpty (Backend.checkFailures inj (flushSinks (inj s1 5)))).1 :=
-      (((hg s1 5).trans (slol_flushSinks _).mono).trans (mono_checkFailures hg _)).trans (fr_allEmpty _).mono
+  · have a1 : Mono s1 (Backend.allEmpty (Backend.checkFailures inj
+        (Backend.flushGate inj (inj s1 5) (inj s1 5).cfg.flushInterval))).1 :=
+      (((hg s1 5).trans (mono_flushGate hg _ _)).trans (mono_checkFailures hg _)).trans (fr_allEmpty _).mono
     split
-    · exact g1.trans ((a1.trans (mono_cleanupContexts _)).trans (mono_cleanupLoggers hg _))
+    · exact g1.trans ((a1.trans (mono_cleanupContexts _)).trans ((mono_preEraseFlush _).trans (mono_cleanupLoggers hg _)))
     · exact g1.trans a1
 
 theorem mono_exitLoop (hg : InjMono inj) (tick : Nat) : ∀ (fuel : Nat) (s : BSt), Mono s (Backend.exitLoop inj tick fuel s)
@@ -501,7 +533,7 @@ theorem mono_exitLoop (hg : InjMono inj) (tick : Nat) : ∀ (fuel : Nat) (s : BS
     have a0 := (fr_allEmpty s).mono
     split
     · exact a0.trans ((((mono_checkFailures hg _).trans (slol_flushSinks _).mono).trans
-        (mono_cleanupContexts _)).trans (mono_cleanupLoggers hg _))
+        (mono_cleanupContexts _)).trans ((mono_preEraseFlush _).trans (mono_cleanupLoggers hg _)))
     · have t0 : Mono (Backend.allEmpty s).1 { (Backend.allEmpty s).1 with now := (Backend.allEmpty s).1.now + tick } :=
         Mono.ofThs rfl (Nat.le_add_right _ _) rfl
       have p0 := mono_populate hg { (Backend.allEmpty s).1 with now := (Backend.allEmpty s).1.now + tick }
@@ -528,7 +560,7 @@ theorem mono_applyOp (s : BSt) (o : Op) : Mono s (applyOp s o).1 := by
     · exact Mono.refl _
     · have h1 := h0.trans (mono_exitLoop (injMono_runInj []) 1000 100000 { s with siteCnt := [] })
       refine h1.trans ?_
-      exact Mono.ofAcc (Nat.le_refl _) (fun _ => rfl) (Nat.le_refl _) (fun _ => Nat.le_refl _) (fun _ => rfl)
+      exact Mono.ofAcc (Nat.le_refl _) (fun _ => rfl) (Nat.le_refl _) (fun _ => Nat.le_refl _) (fun _ => rfl) (fun _ h => h)
 
 theorem mono_runOps : ∀ (ops : List Op) (s : BSt), Mono s (runOps s ops)
   | [], s => Mono.refl s
